@@ -120,6 +120,7 @@ fn run_gen(g: &Gen, out: Container) -> Result<Vec<Obs>, String> {
             GenTy::Usize => by_container!(usize),
             GenTy::OptF64 => by_container!(Option<f64>),
             GenTy::OptI32 => by_container!(Option<i32>),
+            GenTy::Trk => return Err(format!("{HARNESS} tracked generators are handled separately")),
         })
     })
     .and_then(|r| r)
@@ -282,7 +283,105 @@ fn gen_name(g: &Gen) -> &'static str {
     }
 }
 
+/// `full(len, v)` / `empty()` with an element type that is Clone but not Copy: `len` live,
+/// pairwise distinct instances, none dropped twice when the container goes away
+fn check_gen_tracked(g: &Gen) -> (Vec<Violation>, RunStats) {
+    let mut st = RunStats::default();
+    let mut viol = vec![];
+    st.executions += 1;
+    trk_reset();
+    let _ = sim_log_take();
+    let (len, empty) = match &g.kind {
+        GenKind::Full { len, .. } => (*len, false),
+        GenKind::Empty => (0, true),
+        _ => {
+            st.harness_error = Some(format!("{HARNESS} tracked items only support full / empty"));
+            return (viol, st);
+        },
+    };
+    let out = g.out;
+    let r = guarded(move || -> Result<(Vec<Obs>, Vec<u64>), String> {
+        fn build<C: Vec1<Tracked> + SeqObs>(len: usize, empty: bool) -> (Vec<Obs>, Vec<u64>) {
+            let c: C = if empty { C::empty() } else { C::full(len, Tracked::new(7)) };
+            let seq = c.seq();
+            let dead: Vec<u64> = seq
+                .iter()
+                .filter_map(|o| match o {
+                    Obs::T(_, inst) if !trk_is_live(*inst) => Some(*inst),
+                    _ => None,
+                })
+                .collect();
+            drop(c);
+            (seq, dead)
+        }
+        Ok(match out {
+            Container::Vec => build::<Vec<Tracked>>(len, empty),
+            Container::Deque => build::<VecDeque<Tracked>>(len, empty),
+            Container::Array1 => build::<Array1<Tracked>>(len, empty),
+            Container::Sim => build::<SimVec<Tracked>>(len, empty),
+            Container::Polars => return Err(format!("{HARNESS} polars columns hold options")),
+        })
+    });
+    let log = sim_log_take();
+    let stage = format!("{}<{}>", gen_name(g), g.out.name());
+    let mut complain = |oracle: &'static str, props: Vec<&'static str>, d: String| {
+        viol.push(Violation { props, oracle, stage: stage.clone(), detail: d })
+    };
+    match r {
+        Err(msg) => complain("H4", vec!["C09", "C19"], format!("library panicked: {msg}")),
+        Ok(Err(e)) => st.harness_error = Some(e),
+        Ok(Ok((seq, dead))) => {
+            if seq.len() != len {
+                complain("K0", vec!["C19"], format!("full({len}, _) holds {} elements", seq.len()));
+            }
+            let mut ids: Vec<u64> = seq.iter().filter_map(|o| if let Obs::T(_, i) = o { Some(*i) } else { None }).collect();
+            ids.sort();
+            ids.dedup();
+            if ids.len() != seq.len() {
+                complain("K5", vec!["C19"], format!("full({len}, _): elements share instances ({} distinct of {})", ids.len(), seq.len()));
+            }
+            if Iterator::any(&mut seq.iter(), |o| !matches!(o, Obs::T(7, _))) {
+                complain("K0", vec!["C19"], format!("full({len}, v) holds something else than clones of v: {seq:?}"));
+            }
+            if !dead.is_empty() {
+                complain("K5", vec!["C19"], format!("full({len}, _) holds dropped instances {dead:?}"));
+            }
+            let dd = trk_double_drops();
+            if !dd.is_empty() {
+                complain("K5", vec!["C19", "C09"], format!("full({len}, _): instances dropped twice {dd:?}"));
+            }
+        },
+    }
+    for rec in &log.streams {
+        st.hints_checked += rec.hints.len() as u64;
+        if rec.trusted {
+            if let Some((y, h, total)) = rec.first_bad_hint() {
+                viol.push(Violation {
+                    props: vec!["C09"],
+                    oracle: "H1i",
+                    stage: stage.clone(),
+                    detail: format!("iterator handed to the container: after {y} items upper bound {h:?}, total {total}"),
+                });
+            }
+        }
+    }
+    if len == 0 {
+        st.fault("empty_input");
+    }
+    st.hit("tracked_full_or_empty");
+    let sig = format!("gen|tracked|{}|{}|{}", gen_name(g), g.out.name(), len.min(3));
+    let mut h = 0xcbf2_9ce4_8422_2325u64;
+    fnv(&mut h, sig.as_bytes());
+    st.signature = h;
+    st.digest = h ^ (viol.len() as u64);
+    st.nontrivial = true;
+    (viol, st)
+}
+
 pub fn check_gen(g: &Gen) -> (Vec<Violation>, RunStats) {
+    if g.ty == GenTy::Trk {
+        return check_gen_tracked(g);
+    }
     let mut st = RunStats::default();
     let mut viol = vec![];
     let stage = gen_name(g).to_string();
